@@ -1006,8 +1006,8 @@ func checkLazy(c LazyCase, s *rt.Section) (f *rt.Failure, compiled bool, gated [
 			if d := beforeA.diff(snapCfg(vmA)); d != "" && pa == nil {
 				return s.NewFailure("config-unchanged", "config:"+firstField(d), c, "Config changed by Run(\"d\") with DefaultDiceSideExpr: "+d, "unchanged"), false, nil
 			}
-			vm.Attrs.Store("g", val)
-			pb, cb = guarded(func() { eb = vm.Run("1d(g())"); b = vm.Ret })
+			vm.Attrs.Store("zz_twin_fn", val) // a name no generated body reads
+			pb, cb = guarded(func() { eb = vm.Run("1d(zz_twin_fn())"); b = vm.Ret })
 			if ea != nil {
 				a = nil
 			}
@@ -1242,17 +1242,22 @@ func TestProp(t *testing.T) {
 	enumRule := "every string of 1..L atoms over the alphabet, bare and in wrappers, parsed on a fresh VM under each of the 16 family settings (the three Disable* switches cycle through their 8 combinations alongside); listing checked against the closed gates. " + ntRule
 	run.Enum("enum", enumRule, func(s *rt.Section) {
 		s.Exhaustive = true
+		// development runs (VERIF_SCALE < 0.5) enumerate one atom less; the bounds say so
+		short := 0
+		if run.Env.Scale < 0.5 {
+			short = 1
+		}
 		if !run.Env.Thorough() {
 			alpha := []string{"2", "a", "b", "c", "f", "p", "m", "k", "(", ")", "d"}
-			s.Bounds = fmt.Sprintf("alphabet %q, all strings of length 1..4, bare, 16 family settings each", alpha)
-			runEnum(s, run, alpha, 4, []string{"%s"})
+			s.Bounds = fmt.Sprintf("alphabet %q, all strings of length 1..%d, bare, 16 family settings each", alpha, 4-short)
+			runEnum(s, run, alpha, 4-short, []string{"%s"})
 			return
 		}
 		alpha := []string{"2", "a", "b", "c", "f", "p", "m", "k", "(", ")", " ", "d"}
 		wrappers := []string{"^st x=%s", "`{%s}`", "func g() { %s }"}
-		s.Bounds = fmt.Sprintf("alphabet %q: all strings of length 1..5 bare, and of length 1..4 in the wrappers %q; 16 family settings each", alpha, wrappers)
-		if runEnum(s, run, alpha, 5, []string{"%s"}) {
-			runEnum(s, run, alpha, 4, wrappers)
+		s.Bounds = fmt.Sprintf("alphabet %q: all strings of length 1..%d bare, and of length 1..%d in the wrappers %q; 16 family settings each", alpha, 5-short, 4-short, wrappers)
+		if runEnum(s, run, alpha, 5-short, []string{"%s"}) {
+			runEnum(s, run, alpha, 4-short, wrappers)
 		}
 	})
 
